@@ -1,8 +1,13 @@
 #!/bin/sh
-# builds the check driver from files on disk only (offline)
+# builds the check driver from files on disk only (offline), then warms the Go build cache
+# for the plain and the race-detector harness builds so that the first check is not slow
 set -e
 export GOFLAGS=-mod=mod GOPROXY=off GOSUMDB=off GOTOOLCHAIN=local
 cd /verif/tools
 mkdir -p /verif/bin
 go build -o /verif/bin/vcheck ./cmd/vcheck
 go build -o /verif/bin/simgen ./cmd/simgen
+if [ "$1" != "nowarm" ]; then
+  VERIF_DIR=/tmp/vcheck-warm-$$ /verif/bin/vcheck -property C09 -runs 2 >/dev/null 2>&1 || true
+  rm -rf /tmp/vcheck-warm-$$
+fi
